@@ -224,6 +224,19 @@ func packV16(i int16) []byte {
 	return b
 }
 
+// scaleV16 scales f, rounds to the nearest integer and saturates at the bounds of a V16 field.
+func scaleV16(f float32, factor float64) int16 {
+	v := math.Round(float64(f) * factor)
+
+	if v > math.MaxInt16 {
+		return math.MaxInt16
+	} else if v < math.MinInt16 {
+		return math.MinInt16
+	}
+
+	return int16(v)
+}
+
 func unpackV16(data []byte, i *int16) error {
 	if len(data) != 3 {
 		return ErrInvalidLength
